@@ -73,6 +73,13 @@ def run(ctx):
                     jobs.append({"mode": "tcp", "p": pp, "acts": []})
                     jobs.append({"mode": "tcpconc", "p": pp, "acts": []})       # three exchanges at the same time
                     jobs.append({"mode": "tcpconcz", "p": pp, "acts": []})      # ... whose tokens differ only in leading zero bytes
+                    # the library's own server and client over loopback sockets, configured through the public options: every
+                    # fourth scenario on each of the four transports (BERT scenarios on the stream transports only)
+                    if nscen % 4 == 0:
+                        for tp in ("udp", "dtls", "tcp", "tls"):
+                            if tp in ("udp", "dtls") and (pp["cs"] == 7 or pp["ss"] == 7):
+                                continue
+                            jobs.append({"mode": "sock-" + tp, "p": pp, "acts": []})
                     nscen += 1
                     # directed: the fault-free schedule with the n-th message towards the server (n = 1, 2) duplicated
                     # and both copies handed to the layer at the same time; extra deliveries drain what that adds
@@ -208,7 +215,7 @@ def run(ctx):
     ctx.add("transitions", gen)
     ctx.add("traces_validated_against_impl", len(traces))
     ctx.cov["scenarios"] = nscen
-    ctx.cov["schedules_by_mode"] = {m: sum(1 for j in jobs if j["mode"] == m) for m in ("layer", "layerc", "udp", "tcp", "tcpconc", "tcpconcz", "obsbw")}
+    ctx.cov["schedules_by_mode"] = {m: sum(1 for j in jobs if j["mode"] == m) for m in ("layer", "layerc", "udp", "tcp", "tcpconc", "tcpconcz", "obsbw", "mix", "sock-udp", "sock-dtls", "sock-tcp", "sock-tls")}
     obsrecs = [t for t in traces if t["op"] == "obsbw"]
     ctx.cov["observer_deliveries"] = sum(len(t["notes"]) for t in obsrecs)
     single = [t for t in traces if t["op"] not in ("conc", "obsbw", "mix")]
